@@ -54,9 +54,9 @@ def abcCost (pow : α → ε → α) (x a : α) (b : ε) (c xl xh : α) : α :=
 def abcDeriv (pow : α → ε → α) (cast : ε → α) (x a : α) (b : ε) (c xl xh : α) : α :=
   if xl = xh then 0 else -c * cast b * pow (abcQ x xl xh a) (b - 1) * (1 - a) / (xh - xl)
 
-/-- `ABCCost._hess`. -/
+/-- `ABCCost._hess` (zero for a zero-width slot and for the linear curve `b = 1`). -/
 def abcHess (pow : α → ε → α) (cast : ε → α) (x a : α) (b : ε) (c xl xh : α) : α :=
-  if xl = xh then 0 else
+  if xl = xh ∨ cast b = 1 then 0 else
     c * cast b * (cast b - 1) * pow (abcQ x xl xh a) (b - 2) * (((1 - a) / (xh - xl)) * ((1 - a) / (xh - xl)))
 
 end
